@@ -849,6 +849,31 @@ func c15Map(c *fw.Ctx, r *rng.R, ac *asyncCase, onList bool) {
 			if any(par) == any(l) {
 				c.Violate("mapasync-returns-receiver", in(), "a new list", "the receiver")
 			}
+			if r.Chance(1, 4) {
+				// the receiver becomes a structure whose type redefines Get (every answer is masked): what the asynchronous
+				// calls hand to the function is what the synchronous ones hand to it
+				ml := &MaskedList{List: l}
+				ml.Init(ml)
+				c.Count("async_calls_on_structures_that_redefine_get")
+				seqM := ml.Map(func(i int, v any) any { return pureFn(i, v) })
+				parM := ml.MapAsync(func(i int, v any) any { return pureFn(i, v) })
+				if !sameMapped(seqM, parM) {
+					c.Violate("mapasync-differs-from-map", in()+"\nthe receiver is a derived structure whose type redefines Get", stringCanon(seqM), stringCanon(parM))
+				}
+				var mu sync.Mutex
+				var seqP, parP []string
+				ml.ForEach(func(i int, v any) { seqP = append(seqP, fmt.Sprintf("%d:%T:%v", i, v, stringCanon(at.NewList(v)))) })
+				ml.ForEachAsync(func(i int, v any) {
+					mu.Lock()
+					parP = append(parP, fmt.Sprintf("%d:%T:%v", i, v, stringCanon(at.NewList(v))))
+					mu.Unlock()
+				})
+				sort.Strings(seqP)
+				sort.Strings(parP)
+				if strings.Join(seqP, "|") != strings.Join(parP, "|") {
+					c.Violate("foreachasync-differs-from-foreach", in()+"\nthe receiver is a derived structure whose type redefines Get", spec.Trunc(strings.Join(seqP, " | "), 600), spec.Trunc(strings.Join(parP, " | "), 600))
+				}
+			}
 		} else {
 			o := at.NewObject()
 			pos := map[string]int{}
@@ -871,6 +896,16 @@ func c15Map(c *fw.Ctx, r *rng.R, ac *asyncCase, onList bool) {
 			}
 			if !sameMapped(seq, par) {
 				c.Violate("mapasync-differs-from-map", in(), stringCanon(seq), stringCanon(par))
+			}
+			if r.Chance(1, 4) {
+				mo := &MaskedObject{Object: o}
+				mo.Init(mo)
+				c.Count("async_calls_on_structures_that_redefine_get")
+				seqM := mo.Map(func(k string, v any) any { return pureFn(pos[k], v) })
+				parM := mo.MapAsync(func(k string, v any) any { return pureFn(pos[k], v) })
+				if !sameMapped(seqM, parM) {
+					c.Violate("mapasync-differs-from-map", in()+"\nthe receiver is a derived structure whose type redefines Get", stringCanon(seqM), stringCanon(parM))
+				}
 			}
 		}
 		c.DistinctHash(spec.Hash(in()))
@@ -1260,3 +1295,14 @@ func selfC15(s *fw.SelfCheck) {
 	}
 	s.Expect(lg2.nEnded == 3, "target waiting is not bounded")
 }
+
+// MaskedList / MaskedObject: derived structures whose types redefine Get - every answer is masked. What is stored is
+// what the traversals hand to their functions, the synchronous and the asynchronous ones alike.
+type MaskedList struct{ at.List }
+
+func (m *MaskedList) Get(i int) any { return "masked" }
+
+type MaskedObject struct{ at.Object }
+
+func (m *MaskedObject) Get(k string) any { return "masked" }
+
